@@ -8,7 +8,9 @@ import (
 	"strings"
 	"sync"
 
+	eparser "github.com/gardenbed/emerge/internal/ebnf/parser"
 	"github.com/gardenbed/emerge/internal/ebnf/parser/spec"
+	rparser "github.com/gardenbed/emerge/internal/regex/parser"
 	rast "github.com/gardenbed/emerge/internal/regex/parser/ast"
 )
 
@@ -54,18 +56,78 @@ func work(item string) (res string) {
 			b.WriteString(" | ERR")
 		} else {
 			b.WriteString(" | OK " + dfaStr(a.ToDFA().EliminateDeadStates().ReindexStates()))
+			b.WriteString(" | tree=")
+			astTree(&b, a.Root)
 		}
 		return b.String()
 	}
 	return "?"
 }
 
+// the package-level tables every parse reads; they are read-only by convention, so this string must never change
+func sharedState() string {
+	return eparser.VerifSharedState() + " | " + spec.VerifSharedState() + " | " + rparser.VerifSharedState()
+}
+
+// where two prints of the shared state differ (a short window)
+func sharedDiff(a, b string) string {
+	i := 0
+	for i < len(a) && i < len(b) && a[i] == b[i] {
+		i++
+	}
+	lo := i - 60
+	if lo < 0 {
+		lo = 0
+	}
+	ha, hb := i+60, i+60
+	if ha > len(a) {
+		ha = len(a)
+	}
+	if hb > len(b) {
+		hb = len(b)
+	}
+	return fmt.Sprintf("before=%q after=%q", a[lo:ha], b[lo:hb])
+}
+
+// the syntax tree as built: operators with their operands in order, leaves with value and position
+func astTree(b *strings.Builder, n rast.Node) {
+	switch v := n.(type) {
+	case *rast.Concat:
+		b.WriteString("C(")
+		for _, e := range v.Exprs {
+			astTree(b, e)
+		}
+		b.WriteString(")")
+	case *rast.Alt:
+		b.WriteString("A(")
+		for _, e := range v.Exprs {
+			astTree(b, e)
+		}
+		b.WriteString(")")
+	case *rast.Star:
+		b.WriteString("S(")
+		astTree(b, v.Expr)
+		b.WriteString(")")
+	case *rast.Empty:
+		b.WriteString("E")
+	case *rast.Char:
+		fmt.Fprintf(b, "c%d@%d ", v.Val, v.Pos)
+	default:
+		fmt.Fprintf(b, "?%T", n)
+	}
+}
+
 // seq <item,item,...>: the items one after the other in this order; prints the results in the order given
 func cmdSeq(f []string) string {
 	items := strings.Split(f[0], ",")
 	out := make([]string, len(items))
+	shared := sharedState()
 	for i, it := range items {
 		out[i] = hx(work(it))
+		if now := sharedState(); now != shared {
+			out[i] = hx("SHARED-STATE-CHANGED " + sharedDiff(shared, now))
+			shared = now
+		}
 	}
 	return strings.Join(out, ",")
 }
@@ -79,6 +141,7 @@ func cmdConc(f []string) string {
 	for i := range seen {
 		seen[i] = map[string]int{}
 	}
+	shared := sharedState()
 	for r := 0; r < rounds; r++ {
 		var wg sync.WaitGroup
 		res := make([]string, len(items))
@@ -106,6 +169,9 @@ func cmdConc(f []string) string {
 			}
 		}
 		out = append(out, fmt.Sprintf("%d:%s", len(seen[i]), hx(first)))
+	}
+	if now := sharedState(); now != shared {
+		out[0] = "1:" + hx("SHARED-STATE-CHANGED "+sharedDiff(shared, now))
 	}
 	return strings.Join(out, ",")
 }
